@@ -227,6 +227,7 @@ class C09(Check):
         g = qgen.Gen(tape, clifford_only=False, allow_channels=not use_noise_model, allow_qudits=not use_noise_model,
                      allow_control=True, allow_pauli_measure=True, max_qudits=3 if use_noise_model else 4,
                      leaf_bits_cap=4.0 if use_noise_model else 8.0, max_ops=6 if use_noise_model else 10)
+        g.allow_qubitless = not use_noise_model
         circuit = g.circuit()
         noise = None
         noise_desc = None      # a description without memory addresses, for the event log
